@@ -64,6 +64,7 @@ Proof.
 Qed.
 
 (** with several crossings no factor is derived *)
+Section F2N.
 Hypothesis Hnoder : has_derived fb = false.
 
 (** one crossing of the block against the reference semantics *)
@@ -74,26 +75,28 @@ Proof.
   assert (Hik : i < k) by (apply nth_error_Some; congruence).
   destruct (f0_cross_plain fb (f0_unpack fb HF) ci Hci) as [Hnd Hrange0].
   pose proof (fun f Hf => f0_cact fb (f0_unpack fb HF) ci f Hci Hf) as Hrange.
-  set (si := nth i (fl_sizes fb) 0).
-  assert (Hsz : In (ci, si) (combine (fl_crossings fb) (fl_sizes fb))).
-  { assert (E : nth i (combine (fl_crossings fb) (fl_sizes fb)) ([], 0) = (ci, si)).
-    { rewrite combine_nth by (symmetry; apply (f0_sizes_len fb (f0_unpack fb HF))).
-      rewrite (nth_error_nth _ _ [] Hi). reflexivity. }
-    rewrite <- E. apply nth_In. rewrite combine_length, (f0_sizes_len fb (f0_unpack fb HF)), Nat.min_id. exact Hik. }
-  destruct (f0_size_ok fb (f0_unpack fb HF) ci si Hsz) as [Esi Hsipos].
+  set (si := nth i (fl_sizes fb) 0). set (su := nth i (fl_sustains fb) 0).
+  assert (Esi : nth_error (fl_sizes fb) i = Some si)
+    by (apply nth_error_nth'; rewrite (f0_sizes_len fb (f0_unpack fb HF)); exact Hik).
+  assert (Esu : nth_error (fl_sustains fb) i = Some su)
+    by (apply nth_error_nth'; rewrite (f0_sustains_len fb (f0_unpack fb HF)); exact Hik).
+  destruct (f0_size_ok fb (f0_unpack fb HF) i ci si su Hi Esi Esu) as (Esz & Hsipos & Hne & Hsuof).
   assert (Hcwpos : 0 < cw_of fb ci).
   { unfold cw_of. destruct (first_index_of_spec ci _ Hci 0) as [j [Hj Hl]]. rewrite Hj. cbn [Nat.add].
     apply (f0_weights_pos fb (f0_unpack fb HF)). apply nth_In. rewrite (f0_weights_len fb (f0_unpack fb HF)). exact Hl. }
-  rewrite (f0_code_crossing fb HF i ci Hci). fold si.
-  apply (crossing_violated_spec fb en r i ci lev (cw_of fb ci) si (allowed_combos2 fb ci)).
+  rewrite (f0_code_crossing fb HF i ci Hci). fold si. rewrite Hsuof.
+  assert (Emult : map (fun ls => (ls, combo_weight fb (combine ci ls) * su * cw_of fb ci)) (allowed_combos2 fb ci) =
+                  map (fun ls => (ls, cwn fb ci ls * (cw_of fb ci * su))) (allowed_combos2 fb ci)).
+  { apply map_ext. intros ls. unfold cwn. f_equal. lia. }
+  rewrite Emult.
+  apply (crossing_violated_spec fb en r i ci lev (cw_of fb ci) si su (allowed_combos2 fb ci)).
   - intros f Hf. destruct (Hcells f (Hrange f Hf)) as (row & Hr & Hl & _). exists row. split; [exact Hr|]. split; [exact Hl|].
     intros t0 Ht0. destruct (lev_cell f t0 (Hrange f Hf) Ht0) as (row' & Hr' & _ & Hn & _). rewrite Hr in Hr'. inversion Hr'; subst row'. exact Hn.
   - cbn [en_base f0_enum eb_preamble_sizes f0_base]. rewrite nth_error_map.
     rewrite (nth_error_nth' (seq 0 k) 0) by (rewrite seq_length; exact Hik). reflexivity.
   - cbn [en_base f0_enum eb_crossing_weights f0_base]. rewrite nth_error_map, Hi. reflexivity.
-  - cbn [en_base f0_enum eb_crossing_sizes f0_base]. rewrite nth_error_map.
-    rewrite (nth_error_nth' (fl_sizes fb) 0) by (rewrite (f0_sizes_len fb (f0_unpack fb HF)); exact Hik). reflexivity.
-  - destruct ci; [reflexivity|]. unfold sustain. apply (f0_sustain_of fb HF).
+  - cbn [en_base f0_enum eb_crossing_sizes f0_base]. rewrite nth_error_map, Esi. reflexivity.
+  - exact Hne.
   - apply rounds_eq.
   - nia.
   - unfold allowed_combos2. apply NoDup_filter. apply product_NoDup.
@@ -109,18 +112,18 @@ Proof.
       apply not_true_is_false. intros E. apply (f0_excluded_spec fb HF) in E.
       destruct E as (f & l & Hk & Hl). rewrite alookup_combine_map in Hl. destruct (memb f ci) eqn:Em; [|discriminate].
       inversion Hl as [Hl']. apply memb_In in Em.
-      destruct (lev_cell f t (Hrange f Em) Ht) as (_ & _ & _ & _ & _ & Hne). apply Hne; [|rewrite Hl'; exact Hk].
+      destruct (lev_cell f t (Hrange f Em) Ht) as (_ & _ & _ & _ & _ & Hne'). apply Hne'; [|rewrite Hl'; exact Hk].
       destruct (f0_no_derived_sf fb HF Hnoder) as (_ & _ & Hubs & _). rewrite Hubs. intros [].
-  - exact Esi.
+  - exact Esz.
   - reflexivity.
   - intros t Ht. unfold combo_at, K. rewrite map_map. apply map_ext_in. intros f Hf.
     destruct (lev_cell f t (Hrange f Hf) Ht) as (row & Hr & Hl & Hn & _).
     unfold get_cell. rewrite (wf_nth fb HF r Hwf f row (Hrange0 f Hf) Hr). apply nth_error_nth. exact Hn.
 Qed.
 
-(** the crossing loop over the crossings after the first *)
-Lemma crossings_loop : forall (ocs : list (list nat)) (i0 : nat),
-  (forall j ci, nth_error ocs j = Some ci -> nth_error (fl_crossings fb) (i0 + j) = Some ci) -> 0 < i0 ->
+(** the crossing loop over all crossings but the sampled one *)
+Lemma crossings_loop : forall (ics : list (nat * list nat)),
+  (forall i ci, In (i, ci) ics -> nth_error (fl_crossings fb) i = Some ci) ->
   (fix go (ics : list (nat * list nat)) : rres bool :=
      match ics with
      | [] => ROk false
@@ -128,33 +131,36 @@ Lemma crossings_loop : forall (ocs : list (list nat)) (i0 : nat),
        if eb_has_cc (en_base en) || negb (i =? eb_main (en_base en)) then
          v <-- crossing_violated fb en r i c ;;; if v then ROk true else go t
        else go t
-     end) (combine (seq i0 (length ocs)) ocs) =
-  ROk (negb (forallb (crossing_ok S0 s) (CodeSem.code_crossings fb i0 ocs))).
+     end) ics =
+  ROk (negb (forallb (crossing_ok S0 s)
+               (flat_map (fun ic => if fst ic =? main_idx fb then [] else [CodeSem.code_crossing fb (fst ic) (snd ic)]) ics))).
 Proof.
-  induction ocs as [|ci t IH]; intros i0 Hnth Hi0; [reflexivity|].
-  cbn [length seq combine CodeSem.code_crossings forallb]. cbn [en_base f0_enum eb_has_cc eb_main f0_base orb].
-  replace (i0 =? 0) with false by (symmetry; apply Nat.eqb_neq; lia). cbn [negb].
-  rewrite (crossing_at i0 ci) by (specialize (Hnth 0 ci eq_refl); rewrite Nat.add_0_r in Hnth; exact Hnth).
-  cbn [rbind]. destruct (crossing_ok S0 s (CodeSem.code_crossing fb i0 ci)); cbn [negb andb]; [|reflexivity].
-  apply (IH (S i0)); [|lia]. intros j cj Hj. specialize (Hnth (S j) cj Hj). rewrite <- Hnth. f_equal. lia.
+  induction ics as [|[i ci] t IH]; intros Hnth; [reflexivity|].
+  cbn [flat_map fst snd]. cbn [en_base f0_enum eb_has_cc eb_main f0_base orb].
+  destruct (i =? main_idx fb) eqn:E; cbn [negb app].
+  - apply IH. intros j cj Hj. apply Hnth. right. exact Hj.
+  - rewrite (crossing_at i ci (Hnth i ci (or_introl eq_refl))). cbn [rbind forallb].
+    destruct (crossing_ok S0 s (CodeSem.code_crossing fb i ci)); cbn [negb andb]; [|reflexivity].
+    apply IH. intros j cj Hj. apply Hnth. right. exact Hj.
 Qed.
 
+End F2N.
+
 (** the whole rejection test *)
-Theorem f2_violated :
+Theorem f2_violated : (1 < k -> has_derived fb = false) ->
   are_constraints_violated fb en r =
-  ROk (negb (forallb (crossing_ok S0 s) (f0_ocrossings fb) && forallb (constraint_ok S0 s) (s_constraints S0))).
+  ROk (negb (sustain_held fb s && forallb (crossing_ok S0 s) (f0_ocrossings fb) && forallb (constraint_ok S0 s) (s_constraints S0))).
 Proof.
-  unfold are_constraints_violated. rewrite (f1_constraints_loop fb HF r Hwf). cbn [rbind].
-  destruct (forallb (constraint_ok S0 s) (s_constraints S0)); cbn [negb].
-  2:{ rewrite andb_false_r. reflexivity. }
-  rewrite andb_true_r. cbn [en_base f0_enum eb_has_cc f0_base orb].
-  pose proof (f0_crossings fb (f0_unpack fb HF)) as Ec. unfold f0_ocrossings.
-  destruct (tl (fl_crossings fb)) as [|c1 ocs] eqn:Etl.
-  - rewrite Ec. cbn [length Nat.ltb Nat.leb CodeSem.code_crossings forallb negb]. reflexivity.
-  - replace (1 <? k) with true by (symmetry; apply Nat.ltb_lt; rewrite Ec; cbn; lia).
-    rewrite Ec at 1 2. cbn [length seq combine]. cbn [eb_main Nat.eqb negb orb].
-    apply (crossings_loop (c1 :: ocs) 1); [|lia].
-    intros j cj Hj. rewrite Ec. cbn [Nat.add nth_error]. exact Hj.
+  intros Hnoder. unfold are_constraints_violated. rewrite (f1_constraints_loop fb HF r Hwf). cbn [rbind].
+  destruct (sustain_held fb s && forallb (constraint_ok S0 s) (s_constraints S0)) eqn:E1; cbn [negb].
+  2:{ apply andb_false_iff in E1. destruct E1 as [E1 | E1]; rewrite E1; [reflexivity|]. rewrite andb_false_r. reflexivity. }
+  apply andb_prop in E1. destruct E1 as [E1 E2]. rewrite E1, E2. cbn [andb]. rewrite andb_true_r.
+  cbn [en_base f0_enum eb_has_cc f0_base orb].
+  destruct (1 <? k) eqn:Ek.
+  - apply Nat.ltb_lt in Ek. apply (crossings_loop (Hnoder Ek) (f0_icrossings fb)).
+    intros i ci Hin. apply (f0_icrossings_In fb HF). exact Hin.
+  - apply Nat.ltb_ge in Ek. pose proof (f0_main_lt fb (f0_unpack fb HF)) as Hlt.
+    rewrite (f0_ocrossings_single fb HF) by lia. reflexivity.
 Qed.
 
 End F2X.
